@@ -86,11 +86,15 @@ def r1_typestate(ctx):
         R.check(ok, "C04.R1", "accept:sink-only-on-success", "the sink is built only for a successful response", "the sink is built although the subscribe response is an error", "%s:%d" % (acc.file, st["sp"][0]))
     # only SubscriptionSink methods (and the close task) build notifications
     allowed = re.compile(r"^jsonrpsee_core::server::subscription::SubscriptionSink::(send|send_timeout|try_send)(::\{closure#0\})?$|^jsonrpsee_core::server::rpc_module::RpcModule::register_subscription::\{closure#0\}::\{closure#0\}$")
+    try:
+        _task_path = fkey(_subscription_futures(F)[0])
+    except AnchorLost:
+        _task_path = None
     for c in F.all_calls(r"server::(subscription::|helpers::)?sub_message_to_json$|server::(subscription::|helpers::)?sub_err_to_json$"):
         if c.body.crate not in (CORE, SERVER):
             continue
         k = fkey(c.body)
-        R.check(bool(allowed.match(k)), "C04.R1", "notif-builder:%s" % k, "notifications are built by the sink / the close task", "a subscription notification is built in %s (outside the accepted sink and the close task)" % k, where(c))
+        R.check(bool(allowed.match(k)) or (_task_path is not None and k == _task_path), "C04.R1", "notif-builder:%s" % k, "notifications are built by the sink / the close task", "a subscription notification is built in %s (outside the accepted sink and the close task)" % k, where(c))
 
 
 def r2_closed_check_first(ctx):
@@ -177,10 +181,23 @@ def r3_identity(ctx):
                         R.check(oks, "C04.R3", fkey(b) + ":key-fresh-id", "the key uses a fresh id from the id provider", "the subscription id is %s" % [flow.leaf_str(l) for l in lsid], "%s:%d" % (b.file, st["sp"][0]))
 
 
+def _subscription_futures(F):
+    """(close task, response future) of the callback register_subscription registers: the two futures written inside it,
+    told apart by what they do (the close task joins the handler with the acceptance signal and builds the closing
+    notification; the response future signals the acceptance), not by their position in the source"""
+    cb = F.one(r"^jsonrpsee_core::server::rpc_module::RpcModule::<Context>::register_subscription::\{closure#0\}$")
+    kids = [x for x in F.children(cb) if x.kind == "Closure"]
+    task = [x for x in kids if x.calls_to(r"^futures_util::future::try_join$|sub_message_to_json$|sub_err_to_json$")]
+    rf = [x for x in kids if x not in task and x.calls_to(r"MethodResponse::is_success$|oneshot::Sender::<.*>::send$")]
+    if len(task) != 1 or len(rf) != 1:
+        raise AnchorLost("the close task / response future of the subscription callback (found %d / %d)" % (len(task), len(rf)))
+    return task[0], rf[0]
+
+
 def r4_close_gating(ctx):
     F, R = ctx.F, ctx.R
     tr = ctx.tracer(follow_callers=False, follow_fields=False)
-    task = F.one(r"^jsonrpsee_core::server::rpc_module::RpcModule::<Context>::register_subscription::\{closure#0\}::\{closure#0\}$")
+    task, rf = _subscription_futures(F)
     R.fn(task)
     writes = task.calls_to(r"MethodSink::(send|try_send|send_timeout|send_error)$")
     R.floor("C04.R4", len(writes), 1, "close-notification writes in the subscription task")
@@ -209,7 +226,6 @@ def r4_close_gating(ctx):
     R.paths_enumerated += 1
     R.check(pc is not None and pc[1] <= 1, "C04.R4", "task:at-most-one-close", "at most one close notification per path (%s)" % (pc,), "the close task can send %s notifications" % (pc,), "%s:%d" % (task.file, task.lo))
     # the response future: accepted_tx.send dominated by is_success
-    rf = F.one(r"^jsonrpsee_core::server::rpc_module::RpcModule::<Context>::register_subscription::\{closure#0\}::\{closure#1\}$")
     R.fn(rf)
     at = rf.calls_to(r"oneshot::Sender::<.*>::send$")
     suc = rf.calls_to(r"MethodResponse::is_success$")
@@ -313,7 +329,13 @@ def r6_single_writer(ctx):
     okh = False
     for c in gs:
         for a in c.args:
-            for l in tr.origins(bt, a):
+            lv = list(tr.origins(bt, a))
+            # the arguments may travel in a parameter struct
+            for l in list(lv):
+                if l.kind == "agg" and l.detail.get("ops"):
+                    for o in l.detail["ops"]:
+                        lv += tr.origins(F.bodies[l.where], o)
+            for l in lv:
                 if l.kind == "call" and re.search(r"tokio::(task::)?spawn$", l.detail["callee"] or ""):
                     okh = True
     R.check(okh, "C04.R6", "writer-handle-passed", "the handle joined is the one of the spawned send_task", "graceful_shutdown is not given the JoinHandle of the spawned writer task", where(gs[0]) if gs else None)
